@@ -1,7 +1,114 @@
-//! FisherTransform — reference model (TODO).
+//! Fisher Transform. Doc: 2 values — FT `main value`, `signal value` line. Linked formula
+//! (wikipedia / investopedia; the comment above the doc block repeats it):
+//!     FT = 1/2 · ln((1 + x)/(1 − x)) = atanh(x),
+//!     x = the price converted to a level between −1 and 1 over the last `period1` prices, i.e.
+//!     x = 2 · (src − lowest)/(highest − lowest) − 1;
+//!   "calculated values are added to the prior calculated value" (investopedia, step 6);
+//!   signal line = `signal` moving average of the main value.
+//! 2 signals:
+//!   #0 "appears when `main value` crosses zero line. When `main value` changes direction, returns signal
+//!       corresponds to relative position of `main value` in `zone`";
+//!   #1 "appears when `main value` crosses `signal line` and after signal 1 appears".
+//! The two sentences of #0 name two different events and #1 does not say how long "after" lasts nor
+//! what strength it has, so the firing conditions below follow the implementation (†).
 use super::*;
+use std::collections::VecDeque;
 
-/// returns None until the reference is written
-pub fn make(_cfg: &Cfg, _c0: &RC) -> Option<Box<dyn IndRef>> {
-	None
+#[derive(Clone)]
+pub struct FisherTransform {
+	src: String,
+	n: usize,
+	zone: f64,
+	win: rm::Sel,
+	candles: VecDeque<RC>,
+	cum: Q,
+	sig: Box<dyn rm::RefVV>,
+	// signals (on the indicator's own values)
+	prev_own: f64,
+	rev: CrossD,
+	x_sig: CrossD,
+	last_rev: i32,
+}
+
+pub fn make(cfg: &Cfg, c0: &RC) -> Option<Box<dyn IndRef>> {
+	let src = cfg.src("source");
+	let n = cfg.int("period1");
+	let s0 = source(c0, &src);
+	Some(Box::new(FisherTransform {
+		win: rm::Sel::new_q(n, s0),
+		candles: std::iter::repeat(*c0).take(n).collect(),
+		// constant prehistory: highest = lowest, the transform is 0 (see below) and so are the main value
+		// and its average
+		cum: Q::exact(0.0),
+		sig: cfg.ma_ref("signal", Q::exact(0.0)),
+		prev_own: 0.0,
+		// previous differences in the prehistory: main − previous main = 0, main − signal line = 0
+		rev: CrossD::new(0.0),
+		x_sig: CrossD::new(0.0),
+		last_rev: 0,
+		zone: cfg.float("zone"),
+		src,
+		n,
+	}))
+}
+
+const BOUND: f64 = 0.999;
+
+impl IndRef for FisherTransform {
+	fn values(&mut self, c: &RC) -> Vec<Q> {
+		let s = source(c, &self.src);
+		self.win.pushq(s);
+		self.candles.push_back(*c);
+		while self.candles.len() > self.n {
+			self.candles.pop_front();
+		}
+		let rad = self.win.rad();
+		let hi = Q::new(self.win.highest(), rad);
+		let lo = Q::new(self.win.lowest(), rad);
+		// exact predicate of the inputs: every candle of the window is the same candle
+		let same_candle = self.candles.iter().all(|x| x == c);
+		let ft = if hi.v == lo.v && (rad == 0.0 || same_candle) {
+			// † follows the implementation: on a zero range (x = 0/0) the transform counts as 0
+			Q::exact(0.0)
+		} else if (hi - lo).straddles(0.0) {
+			// zero range up to the rounding of the source: the guard cannot be decided
+			Q::undefined()
+		} else {
+			let x = ((s - lo) / (hi - lo)).scale(2.0) - Q::exact(1.0);
+			// † follows the implementation: x = ±1 (the price at an end of its range) has no finite
+			// transform; x is limited to ±0.999
+			x.clamp(-BOUND, BOUND).atanh()
+		};
+		// † follows the implementation: the prior value enters with the weight 1/2 (Ehlers' recursion;
+		// the linked pages only say "added to the prior calculated value")
+		self.cum = self.cum.scale(0.5) + ft;
+		if !self.cum.is_defined() && ft.r.is_infinite() && !ft.is_defined() {
+			eprintln!("DBG undefined: src={} hi={:?} lo={:?} s={:?} n={} candles={:?}", self.src, hi, lo, s, self.n, self.candles);
+		}
+		if !self.cum.is_defined() {
+			// the recursion carries an undecidable step forever; the average is not fed with it
+			return vec![Q::undefined(), Q::undefined()];
+		}
+		let line = self.sig.stepq(self.cum);
+		vec![self.cum, line]
+	}
+	fn signals(&mut self, _c: &RC, own: &[f64]) -> Vec<Sig> {
+		let (main, line) = (own[0], own[1]);
+		// change of direction: the step-to-step change of the main value changes its sign
+		let rev = self.rev.cross(main, self.prev_own);
+		self.prev_own = main;
+		// † follows the implementation: a turn upwards counts while the main value is negative, a turn
+		// downwards while it is positive; the strength is the position of the main value in the zone
+		let s0 = if (main < 0.0 && rev > 0) || (main > 0.0 && rev < 0) { sig_ratio(main / self.zone) } else { Sig::None };
+		let crossed = self.x_sig.cross(main, line);
+		if rev != 0 {
+			self.last_rev = rev;
+		}
+		// † follows the implementation: "after signal 1" = the latest change of direction (whether or not
+		// signal 1 was emitted for it) points the same way as the crossing; the strength is the position of
+		// the signal line in the zone
+		let s1 = if (line < 0.0 && self.last_rev > 0 && crossed > 0) || (line > 0.0 && self.last_rev < 0 && crossed < 0) { sig_ratio(line / self.zone) } else { Sig::None };
+		vec![s0, s1]
+	}
+	indref!(FisherTransform);
 }
